@@ -64,3 +64,19 @@ let () =
        | AwFail (AwECreate, st) -> "create|" ^ c15_tree (aw_close st).aw_fs
        | AwFuel -> "fuel")
     | _ -> "?args")
+
+(* ahdr_ok: table rows (header, the sender's meta) and, per row, what the REAL decoder made of
+   the header ("none" or pathspec:isdir:size); result: one 0/1 per row *)
+let () =
+  register "ahdr_ok" (function [tbl; parsed] ->
+      let tbl = c15_table tbl in
+      let ps = List.map (fun s ->
+          if s = "none" then None else
+            match String.split_on_char ':' s with
+            | [p; d; sz] -> Some { am_path = c15_path_of p; am_dir = bool_of d; am_size = z_of_string sz }
+            | _ -> failwith "c15 parsed row") (String.split_on_char ';' parsed) in
+      let pairs = List.combine (List.map (fun (h, _, _) -> h) tbl) ps in
+      let parse b = (try List.assoc b pairs with Not_found -> None) in
+      String.concat "" (List.map (fun e -> if ahdr_okb (c15_hdr tbl) parse e then "1" else "0") (c15_entries tbl))
+    | _ -> "?args")
+
